@@ -63,7 +63,10 @@ def run_tlc(ctx: Ctx, spec: str, cfg: str, *, workers: int | str | None = None, 
     res = {"spec": spec, "cfg": cfg, "generated": gen, "distinct": dist, "ok": ok, "rc": p.returncode,
            "wall_s": round(wall, 1), "stdout": out, "stderr": p.stderr}
     if expect_ok and not ok:
-        tail = "\n".join(out.splitlines()[-40:])
+        lines = out.splitlines()
+        first = next((i for i, l in enumerate(lines) if l.startswith("Error:") or "Exception" in l), None)
+        head = "\n".join(lines[first:first + 12]) + "\n...\n" if first is not None else ""
+        tail = head + "\n".join(lines[-25:])
         raise MachineryError(f"TLC did not complete cleanly on {spec}/{cfg} (rc={p.returncode}):\n{tail}\n{p.stderr[-500:]}")
     res["printed"] = _parse_printed(out)
     if coverage:
